@@ -318,10 +318,11 @@ def check(ctx):
     # ... and that arm is the one taken when there IS a square to remember
     from rules.norm import Norm as _Nf
     nf = _Nf(cm)
-    for ret_, f_ in arms:
+    for arm_ in arms:
+        ret_, f_ = arm_
         has_sq = 'last_enpassant' in f_ and 'const:1' in f_
         atoms_ = set()
-        for c_, t_ in guard_facts(cm, ret_):
+        for c_, t_ in arm_.conds:
             atoms_ |= set(nf.facts([(c_, t_)]))
         rel = [a for a in atoms_ if a[0] == 'in' and a[1] == 'last_enpassant']
         if len(rel) != 1:
